@@ -33,11 +33,11 @@ def outcome(fn):
     return ("msg", project.msg_proj(m, with_hash=True))
 
 
-def single_routes(prio, pgn, src, dst, data: bytes, rng):
+def single_routes(prio, pgn, src, dst, data: bytes, rng, settings=None):
     ident = wire.can_id(prio, pgn, src, dst)
     pdu1 = ((pgn >> 8) & 0xFF) < 240
     d_eff = dst if pdu1 else 255
-    D = NMEA2000Decoder
+    D = NMEA2000Decoder if not settings else (lambda: NMEA2000Decoder(**settings))
     ts_a = rng.choice(["A000000.000", "A000057.055", "A999999.999", "A173321.107"])
     ts_y = rng.choice(["00:00:00.000", "23:59:59.999", "17:33:21.107"])
     return {
@@ -197,6 +197,12 @@ def run_shard(spec, acc):
                     continue
                 outs = {n: outcome(fn) for n, fn in single_routes(prio, d.pgn, src, dst, pb, rng).items()}
                 msgs = compare(outs, acc, w)
+                if c % 5 == 2:
+                    # the same frame on decoders that build the network map and have not heard a claim from this source: every
+                    # format carries its own notion of time (uptime, time of day, a date, none) - the outcome is one and the same
+                    outs_m = {n + "+network_map": outcome(fn) for n, fn in single_routes(prio, d.pgn, src, dst, pb, rng, {"build_network_map": True}).items()}
+                    compare(outs_m, acc, dict(w, settings="build_network_map=True, source unclaimed"))
+                    acc.count("network_map_route_sets_compared")
                 acc.case((d.pgn, prio, src, dst, pb) if msgs >= 2 else None)
                 acc.count("single_frame_cases")
                 acc.cover("outcome_kinds", outs["ebyte"][0])
